@@ -39,9 +39,7 @@ let step (cfg : gw_cfg) (s : gw_state) (s' : gw_state) (ev : gw_event) (iouts : 
   let cid_changed = h.cid_changed ||
                     (s'.gw_client_id <> s.gw_client_id && (s.gw_handed_out <> [] || nmap_to_list s.gw_registered <> [])) in
   (* C34: a sleep pinger is scheduled while the session leaves the sleep or a new sleep is announced *)
-  let pinger = List.exists (fun t -> match t.tm_kind with TmPing _ -> true | _ -> false) s.gw_timers in
-  let resleep = (match ev_packet ev with Some (Disconnect d) -> int_of_n d > 0 | _ -> false) in
-  let pinger_outlived = h.pinger_outlived || (pinger && (s'.gw_st <> Asleep || resleep)) in
+  let pinger_outlived = h.pinger_outlived || c34_excluded cfg s ev in
   let st = (match s.gw_st with Disconnected -> "disconnected" | Active -> "active" | Asleep -> "asleep" | Awake -> "awake") in
   let mfs = List.map (fun (p, c) ->
       let p = int_of_n p in
